@@ -6,20 +6,10 @@ narrow size field from 16 on) and the code units are universally quantified; not
 `= .ok …` in a conclusion is the memory-safety face: no read or write outside the `Capacity+1` units.
 -/
 import TetlProofs.C04.Lemmas
+import TetlProofs.C04.Defs
 import TetlProofs.C08.Props
 namespace Tetl.C04.Props
 open Tetl Tetl.C04
-
-/-- hypotheses of one step: the call is defined by the standard (`Spec.valid`: no out_of_range, no empty-string
-    UB, pointer arguments inside their arrays), and for the assign/constructor family the documented
-    `\pre len <= Capacity`.  Appending members need nothing more: they clamp. -/
-def Pre (cap : Nat) (cs : List Nat) (op : Op) : Bool :=
-  Spec.valid cs op && (!Spec.isAssign op || Spec.fits cap cs op)
-
-/-- free `etl::erase(c, value)` (remove_if + erase) is modelled and compared on every run but not proved yet -/
-def Proved : Op → Bool
-  | .eraseValue _ => false
-  | _ => true
 
 /-- The empty string of every capacity is well formed and represents "" (both layouts). -/
 theorem mk0_rep (cap : Nat) (hc : cap < W64) : Rep (Str.mk0 cap) [] := by
@@ -57,10 +47,10 @@ theorem rotate_eq (P A B S : Units) :
       = .ok (P ++ B ++ A ++ S, P.length + B.length) := rotate_spec P A B S
 
 /-- **One step, invariant + exact result (clamping included).**  From any well-formed state, every modelled
-    mutating member returns `.ok` (no access outside the buffer, no precondition failure), keeps the capacity,
+    mutating member (all constructors of `Op`, the free `etl::erase(c, value)` included) returns `.ok` (no access outside the buffer, no precondition failure), keeps the capacity,
     returns what std returns, and leaves a well-formed string — `size <= capacity`, terminator at `size()` —
     whose contents are the std result cut to the capacity exactly as documented (`Spec.stepClamped`). -/
-theorem step_rep {s : Str} {cs : List Nat} (h : Rep s cs) (op : Op) (hp : Pre s.cap cs op = true) (hpr : Proved op = true) :
+theorem step_rep {s : Str} {cs : List Nat} (h : Rep s cs) (op : Op) (hp : Pre s.cap cs op = true) :
     ∃ s', s.step op = .ok (s', (Spec.step cs op).2) ∧ s'.cap = s.cap ∧ Rep s' (Spec.stepClamped s.cap cs op) := by
   unfold Pre at hp
   simp only [Bool.and_eq_true, Bool.or_eq_true, Bool.not_eq_true'] at hp
@@ -127,49 +117,35 @@ theorem step_rep {s : Str} {cs : List Nat} (h : Rep s cs) (op : Op) (hp : Pre s.
   | resize count ch =>
     obtain ⟨s', h1, h2, h3⟩ := resize_rep h count ch
     exact ⟨s', by simp [Str.step, h1, Spec.step], h2, h3⟩
-  | eraseValue v => simp [Proved] at hpr
+  | eraseValue v =>
+    obtain ⟨s', h1, h2, h3⟩ := eraseValue_rep h v
+    exact ⟨s', by simp [Str.step, h1, Spec.step], h2, h3⟩
 
-example : Pre 3 [97, 98] (.insertImpl 1 [1, 2, 3, 4] 1 3) = true ∧ Proved (.insertImpl 1 [1, 2, 3, 4] 1 3) = true ∧
+example : Pre 3 [97, 98] (.insertImpl 1 [1, 2, 3, 4] 1 3) = true ∧
     Spec.fits 3 [97, 98] (.insertImpl 1 [1, 2, 3, 4] 1 3) = false := by decide   -- non-vacuous: a clamping insert
 
 /-- **Invariant of one step** (the property's second sentence): after every defined operation — the clamping
     ones included, no "fits" hypothesis — `size() <= capacity()` and `data()[size()]` is the null character. -/
-theorem inv_step {s : Str} {cs : List Nat} (h : Rep s cs) (op : Op) (hp : Pre s.cap cs op = true) (hpr : Proved op = true) :
+theorem inv_step {s : Str} {cs : List Nat} (h : Rep s cs) (op : Op) (hp : Pre s.cap cs op = true) :
     ∃ s' r n, s.step op = .ok (s', r) ∧ s'.size = .ok n ∧ n ≤ s'.cap ∧ s'.buf[n]? = some 0 ∧ s'.cap = s.cap := by
-  obtain ⟨s', h1, h2, h3⟩ := step_rep h op hp hpr
+  obtain ⟨s', h1, h2, h3⟩ := step_rep h op hp
   exact ⟨s', _, _, h1, h3.1.size, h3.1.le, h3.1.nul, h2⟩
 
-example : Pre 1 [7] (.appendFill 5 9) = true ∧ Proved (.appendFill 5 9) = true := by decide
+example : Pre 1 [7] (.appendFill 5 9) = true := by decide
 
 /-- **Refinement of one step** (the property's first sentence): when the std result fits in the capacity the
     member leaves exactly the contents and returns exactly the value `std::basic_string` does. -/
-theorem refines_step {s : Str} {cs : List Nat} (h : Rep s cs) (op : Op) (hp : Pre s.cap cs op = true) (hpr : Proved op = true)
+theorem refines_step {s : Str} {cs : List Nat} (h : Rep s cs) (op : Op) (hp : Pre s.cap cs op = true)
     (hf : Spec.fits s.cap cs op = true) :
     ∃ s', s.step op = .ok (s', (Spec.step cs op).2) ∧ s'.cap = s.cap ∧ Rep s' (Spec.step cs op).1 := by
-  obtain ⟨s', h1, h2, h3⟩ := step_rep h op hp hpr
+  obtain ⟨s', h1, h2, h3⟩ := step_rep h op hp
   rw [stepClamped_of_fits _ _ _ hf] at h3
   exact ⟨s', h1, h2, h3⟩
 
-example : Pre 16 [97, 98, 99] (.eraseRange 1 3) = true ∧ Proved (.eraseRange 1 3) = true ∧
+example : Pre 16 [97, 98, 99] (.eraseRange 1 3) = true ∧
     Spec.fits 16 [97, 98, 99] (.eraseRange 1 3) = true := by decide
 
 /-! ### histories -/
-
-/-- run a history on the model -/
-def run : Str → List Op → Except Err Str
-  | s, [] => .ok s
-  | s, op :: ops => do
-    let r ← s.step op
-    run r.1 ops
-
-/-- every operation of the history is defined, proved, and (for this theorem) its std result fits -/
-def FitsAll (cap : Nat) : List Nat → List Op → Bool
-  | _, [] => true
-  | cs, op :: ops => Pre cap cs op && Proved op && Spec.fits cap cs op && FitsAll cap (Spec.step cs op).1 ops
-
-def Spec.run : List Nat → List Op → List Nat
-  | cs, [] => cs
-  | cs, op :: ops => Spec.run (Spec.step cs op).1 ops
 
 /-- **Refinement over histories**: every history (any length) of fitting operations, started from any
     well-formed state, ends `.ok` in a well-formed state holding exactly the std contents. -/
@@ -181,22 +157,13 @@ theorem refines_history : ∀ (ops : List Op) {s : Str} {cs : List Nat}, Rep s c
   | cons op ops ih =>
     intro s cs h hf
     simp only [FitsAll, Bool.and_eq_true] at hf
-    obtain ⟨⟨⟨hp, hpr⟩, hfit⟩, hrest⟩ := hf
-    obtain ⟨s1, h1, h2, h3⟩ := refines_step h op hp hpr hfit
+    obtain ⟨⟨hp, hfit⟩, hrest⟩ := hf
+    obtain ⟨s1, h1, h2, h3⟩ := refines_step h op hp hfit
     rw [← h2] at hrest
     obtain ⟨s', h4, h5, h6⟩ := ih h3 hrest
     exact ⟨s', by simp [run, h1, h4], by rw [h5, h2], h6⟩
 
 example : FitsAll 3 [] [.appendFill 2 97, .insertImpl 1 [120] 0 1, .eraseIt 0, .resize 3 0] = true := by decide
-
-/-- the state reached by a history of defined operations, with the tetl clamping semantics -/
-def Spec.runClamped (cap : Nat) : List Nat → List Op → List Nat
-  | cs, [] => cs
-  | cs, op :: ops => Spec.runClamped cap (Spec.stepClamped cap cs op) ops
-
-def ValidAll (cap : Nat) : List Nat → List Op → Bool
-  | _, [] => true
-  | cs, op :: ops => Pre cap cs op && Proved op && ValidAll cap (Spec.stepClamped cap cs op) ops
 
 /-- **Invariant over histories**: after every history of defined operations — fitting or clamping — from the
     default-constructed string of any capacity, the model is `.ok`, `size() <= capacity()` and the unit at
@@ -211,8 +178,8 @@ theorem inv_history (cap : Nat) (hc : cap < W64) : ∀ (ops : List Op), ValidAll
     | cons op ops ih =>
       intro s cs h hcap hf
       simp only [ValidAll, Bool.and_eq_true] at hf
-      obtain ⟨⟨hp, hpr⟩, hrest⟩ := hf
-      obtain ⟨s1, h1, h2, h3⟩ := step_rep h op (by rw [hcap]; exact hp) hpr
+      obtain ⟨hp, hrest⟩ := hf
+      obtain ⟨s1, h1, h2, h3⟩ := step_rep h op (by rw [hcap]; exact hp)
       rw [hcap] at h3
       obtain ⟨s', h4, h5, h6⟩ := ih h3 (by rw [h2, hcap]) hrest
       exact ⟨s', by simp [run, h1, h4], h5, h6⟩
@@ -247,24 +214,8 @@ theorem compare_sign {a b : Str} {ca cb : List Nat} (ha : Rep a ca) (hb : Rep b 
 
 /-- `substr(pos, count)` for `pos <= size()`: a well-formed string holding the std substring. -/
 theorem substr_eq {s : Str} {cs : List Nat} (h : Rep s cs) (pos count : Nat) (hp : pos ≤ cs.length) :
-    ∃ r, s.substr pos count = .ok r ∧ r.cap = s.cap ∧ Rep r (Spec.substr cs pos count) := by
-  unfold Str.substr
-  rw [h.1.size]
-  simp only [C08.ok_bind]
-  rw [if_neg (by omega)]
-  have hle := h.1.le
-  obtain ⟨r, h1, h2, h3⟩ := ctorPtrLen_rep s.cap h.1.capLt s.buf pos (min count (cs.length - pos)) (by omega)
-    (by rw [h.1.len]; omega)
-  refine ⟨r, h1, h2, ?_⟩
-  have : Spec.seg s.buf pos (min count (cs.length - pos)) = Spec.substr cs pos count := by
-    unfold Spec.seg Spec.substr
-    conv => lhs; rw [h.buf_eq]
-    rw [List.drop_append_of_le_length hp, List.take_append_of_le_length (by simp; omega)]
-    rw [← List.take_take]
-    congr 1
-    rw [List.take_of_length_le (by simp)]
-  rw [this] at h3
-  exact h3
+    ∃ r, s.substr pos count = .ok r ∧ r.cap = s.cap ∧ Rep r (Spec.substr cs pos count) :=
+  substr_rep h pos count hp
 
 example : (3 : Nat) ≤ [1, 2, 3].length := by decide
 
@@ -284,6 +235,17 @@ theorem compare_pos_count_pos_count_eq (h : Units) (pos1 count1 : Nat) (v : Unit
   compare5_eq h pos1 count1 v pos2 count2 hp1 hp2
 
 example : (0 : Nat) ≤ ([] : List Nat).length ∧ (1 : Nat) ≤ [0].length := by decide
+
+/-- **Overload resolution.**  For every way an overload passes its character sequence (pointer+count, C string
+    measured by `traits_type::length`, iterator pair, view, sub-view, another string, sub-string through a temporary
+    `substr`, sub-string through a view, single char): whenever the standard defines the call (`den = some d`), the
+    range the model hands to the member lies inside its array and denotes exactly `d`.  Together with `step_rep`
+    this covers every overload of assign / append / += / insert. -/
+theorem overload_arg_eq {o : Str} {co : List Nat} (ho : Rep o co) (a : Arg) (d : List Nat) (hd : a.den co = some d) :
+    ∃ src, a.src o = .ok src ∧ src.off + src.len ≤ src.arr.length ∧ Spec.seg src.arr src.off src.len = d :=
+  arg_agree ho a d hd
+
+example : (Arg.viewsub [1, 2, 3] 1 NPOS).den [] = some [2, 3] ∧ (Arg.cstr [7, 0, 9]).den [] = some [7] := by decide
 
 /-! ### known findings: the failing inputs, kernel-checked on the model -/
 
